@@ -5,7 +5,9 @@ _RULE = ("histories of 10-60 (thorough: 10-130) operations by 4 actors (creator 
          "1-3 pools with 1-2 reward denominations (sometimes equal to a staked token), arbitrary integer stakes (1..10^20) and "
          "rewards per block (1..10^14), several messages per block, empty blocks, start heights in the future, natural expiry "
          "(every block is really executed), destroy, top-ups and per-block changes, operations in and around the pool's last "
-         "block, ~4% malformed messages; every history is followed by the full-withdrawal epilogue (every farmer unstakes "
+         "block, ~4% malformed messages; about 90% of the farmer / creator operations are re-targeted when they are executed (a farmer "
+         "who has stake, a pool that is running, the creator of an editable pool) so that most operations succeed, the rest stay "
+         "blind; every history is followed by the full-withdrawal epilogue (every farmer unstakes "
          "everything from every pool). non-trivial = at least two farmers hold stake in one pool at the same time and some "
          "reward-per-share * stake has a fractional part; distinct = by hash of the history")
 
@@ -31,7 +33,9 @@ PROPS["C05"] = dict(
              5: "the rewards returned by a successful unstake differ from floor(reward per share * stake) - debt",
              6: "an unstake of at most the recorded stake was rejected (reward collector not short)"},
     trusted_base=_TRUST,
-    assumptions=["amounts stay far below the 256-bit range of sdkmath.Int (the generator's balances are 10^30)"],
+    assumptions=["amounts stay far below the 256-bit range of sdkmath.Int (the generator's balances are 10^30)",
+                 "theorems: message senders are not module accounts; at genesis the farm module account is empty and the reward collector non-negative",
+                 "the model follows the fix commits of the farm group (CaclRewards debt rounding, AdjustPool end height) and of the genesis group (MsgStake rejects a zero amount)"],
 )
 
 PROPS["C06"] = dict(
@@ -57,5 +61,7 @@ PROPS["C06"] = dict(
              17: "a live pool's remaining budget no longer covers per-block * (end - last distribution)",
              18: "a farmer's cumulative payout differs from the exact stake-weighted share by n interactions or more"},
     trusted_base=_TRUST,
-    assumptions=["amounts stay far below the 256-bit range of sdkmath.Int (the generator's balances are 10^30)"],
+    assumptions=["amounts stay far below the 256-bit range of sdkmath.Int (the generator's balances are 10^30)",
+                 "theorems: message senders are not module accounts; at genesis the farm module account is empty and the reward collector non-negative",
+                 "payout_close_to_fair_share is stated for one farmer and one rule as an event list; cacl_rewards_is_act ties an event to the model's CaclRewards"],
 )
